@@ -6,9 +6,11 @@
 -/
 import Csvq.Gen.EncFacts
 import Csvq.Model.Csv
+import Csvq.Model.Json
 namespace Csvq.EncFacts
 open Csvq.Gen.Enc
 open Csvq.Csv (includesLineBreak)
+open Csvq.Json (firstBreak)
 
 theorem containsAny_crlf (s : List Char) :
     containsAny s [Char.ofNat 13, Char.ofNat 10] = includesLineBreak s := by
@@ -28,24 +30,6 @@ theorem containsAny_crlf (s : List Char) :
       · simp [h1, h2]
 
 /-! ## the line break detector -/
-
-/-- specification: the first line break outside strings ("" = none); `inString`, `escaped` = where the
-    scan stands -/
-def firstBreak : Bool → Bool → List Nat → String
-  | _, _, [] => ""
-  | true, true, _ :: cs => firstBreak true false cs
-  | true, false, c :: cs =>
-    if c = 92 then firstBreak true true cs
-    else if c = 34 then firstBreak false false cs
-    else firstBreak true false cs
-  | false, _, c :: cs =>
-    if c = 34 then firstBreak true false cs
-    else if c = 10 then "LF"
-    else if c = 13 then
-      match cs with
-      | 10 :: _ => "CRLF"
-      | _ => "CR"
-    else firstBreak false false cs
 
 /-- states the scan can be in while nothing has been found and no CR is pending -/
 def Scanning (d : Det) : Prop :=
@@ -124,7 +108,13 @@ theorem scanLoop_spec (b : List Nat) : ∀ (d : Det), Scanning d →
           · have hs : scanStep d c = ({ d with pendingCR := true }, false) := by
               simp [scanStep, h2, hi, hc1, hc2, hc3]
             rw [scanLoop_step_false d _ c cs hs, scanLoop_pending { d with pendingCR := true } h1 rfl]
-            simp [firstBreak, hc3]
+            simp only [firstBreak, hc3, if_true, if_false, Nat.reduceEqDiff]
+            cases cs with
+            | nil => rfl
+            | cons x xs =>
+              by_cases hx : x = 10
+              · subst hx; rfl
+              · split <;> split <;> simp_all
           · have hs : scanStep d c = (d, false) := by
               simp [scanStep, h2, hi, hc1, hc2, hc3]
             rw [scanLoop_step_false d _ c cs hs, ih d ⟨h1, h2, h3⟩]
